@@ -177,6 +177,42 @@ def main(argv):
         dis += socket_part(c, v3exe, socks, res.get("sockets", []))
         dis += user_part(c, v3exe, users, res.get("users", []))
     c.assumptions += ["the Gallina MD5 / SHA-1 are validated on the RFC 1321 / FIPS 180 vectors inside Coq (Model/Crypto/HashVectors.v) and here against the md-5 / sha1 crates"]
+    # ---- the keys "as actually used by a session": sessions that learn their engine id (None / b"", first probe lost and
+    # retried, passwords shared between the digests, key types mixed) sign and encrypt under the RFC 3414 A.2 keys ...
+    from lib import v3sessions
+    v3sessions.run(c, v3exe, "C12", {"auth-flag", "mac", "priv-flag", "decrypt"})
+    # ... and a user whose key is an empty password is refused by the session (at construction when the engine id is given,
+    # at entry when it is learned), whichever of the two keys it is
+    scs_r = []
+    for auth in ("md5", "sha1"):
+        for priv, which in ((None, "auth"), ("des", "auth"), ("aes", "priv"), ("des", "priv")):
+            for given in (True, False):
+                ksz = 16 if auth == "md5" else 20
+                eng = "80001f8880" + gen.rbytes(rng, 6, False).hex()
+                a = [auth, 0, ""] if which == "auth" else [auth, rng.choice([0, 1, 2]), gen.rbytes(rng, ksz, False).hex()]
+                pk = None if not priv else [priv, 0, ""] if which == "priv" else [priv, rng.choice([0, 1, 2]), gen.rbytes(rng, ksz, False).hex()]
+                v3 = {"user": "nokey", "auth": a, "priv": pk, "engine_id": eng if given else None, "agent_engine_id": eng, "boots": 3, "time": 9}
+                report = {"pdu_tag": 0xA8, "mac": "absent", "encrypt": "no", "flags": 0, "boots": 3, "time": 9}
+                vbr = ber.varbind(ber.enc_oid([1, 3, 6, 1, 2, 1, 1, 3, 0]), ber.enc_value("tt", 1))
+                scs_r.append({"version": "v3", "mode": rng.choice(["sync", "async"]), "timeout": 0.2, "v3": v3, "_which": which, "_given": given,
+                              "steps": [{"op": "enter", "replies": [[report]], "default_reply": report},
+                                        {"op": "get", "args": ["1.3.6.1.2.1.1.3.0"], "replies": [[{"vbs": vbr.hex(), "mac": "absent", "encrypt": "no", "flags": 0}]]}]})
+    resr, logr = vf.run_api_worker("C12", {"scenarios": [v3sessions.strip(sc) for sc in scs_r], "model_exe": v3exe})
+    if resr is None:
+        c.errors.append("API worker failed: " + logr[-1500:])
+    else:
+        for sc, rec in zip(scs_r, resr["records"]):
+            c.count(("empty-password-session", sc["v3"]["auth"][0], sc["v3"]["priv"] and sc["v3"]["priv"][0], sc["_which"], sc["_given"], sc["mode"]), True)
+            if "driver_error" in rec:
+                c.errors.append("API driver error: " + rec["driver_error"])
+                continue
+            refused = rec.get("create_error") == "ValueError" if sc["_given"] else (not rec.get("create_error") and rec["steps"][0].get("exc") == "ValueError")
+            if not refused:
+                sent = [q for st in rec.get("steps", []) for q in st.get("requests", [])]
+                c.violation("a session (%s, engine id %s) whose %s key is an empty password is not refused with ValueError (%s); it went on to send %d message(s) with flags %s"
+                            % (sc["mode"], "given" if sc["_given"] else "learned", sc["_which"], rec.get("create_error") or rec["steps"][0].get("exc") or "accepted",
+                               len(sent), sorted({q.get("flags") for q in sent if "flags" in q})),
+                            {"scenario": v3sessions.strip(sc)}, key="empty-password-session")
     return c.finish(
         rule="password -> master key for passwords of length %s octets x {MD5, SHA-1} (each a 1 MiB digest in the extracted Gallina hash) incl. the "
              "RFC 3414 A.3 vectors; localisation for engine ids of 0..32 octets; as_key_type for every key length 0..64 x {master, localized}, all four "
@@ -384,6 +420,8 @@ def api_main(g, job):
     import apilib
     import ber
     import hmac as _hmac
+    if "scenarios" in job:
+        return scen.api_main_generic(g, job)
     out_calls = []
     for a in job["calls"]:
         if a[0] == "master":
